@@ -614,6 +614,7 @@ def run(ctx):
             check_fill(ctx, prog, vt, n_leaves)
     if found < 2:
         ctx.anchor_missing(RULE, 'mask functions', PROPS, found, 2)
+    run_bititer(ctx)
     ctx.stat(RULE, mask_functions=found)
 
 
@@ -724,3 +725,129 @@ def check_fill(ctx, prog, ft, n_leaves):
         ctx.add(RULE, fn_bits, 'fill-form', 'violation' if problems else 'ok', '; '.join(problems) if problems else 'leaf of a coordinate = coordinate + %d; the word is 2^(last+1) - 2^first: exactly the positions first..=last' % (n_leaves - 1), PROPS, fn_bits.line)
     except Undecided as e:
         ctx.add(RULE, ft, 'fill-form', 'violation', 'undecided: %s' % e, PROPS, ft.line)
+
+
+# ---- the iterator over the bits of a mask ------------------------------------------------------------------------------------
+def run_bititer(ctx):
+    """The places of a mask are enumerated by an iterator over its set bits.  Every place once and only places of the mask:
+    `next` answers None exactly when no bit is left, otherwise the position of the lowest set bit, and takes exactly that bit off."""
+    prog = ctx.prog
+    from rules.gate import edge_truth
+    def one_word(adt):
+        vs = (prog.adts.get(adt) or {}).get('variants') or []
+        fl = vs[0].get('fields', []) if len(vs) == 1 else []
+        return fl[0]['name'] if len(fl) == 1 and fl[0].get('ty') == 'u64' else None
+    its = [f for f in prog.fns.values() if f.family == 'seg' and f.trait_method() == 'next' and not f.is_closure and f.info.get('mir')
+           and f.self_adt and one_word(f.self_adt)]
+    if len(its) != 1:
+        ctx.anchor_missing(RULE, 'iterator over the bits of a mask (a one-field u64 iterator of the segment tree)', PROPS, len(its), 1)
+        return
+    f = its[0]
+    b = f.body
+    fld = one_word(f.self_adt)
+    problems = []
+
+    def is_word(v):
+        v = strip(v)
+        return v is not None and v.kind == 'load' and prog.self_field(v) == (fld,)
+
+    def unc(v):
+        v = strip(v)
+        while v is not None and v.kind == 'cast':
+            v = strip(v.args[0])
+        if v is not None and v.kind == 'load' and tuple(v.args[1]) == ('0',) and strip(v.args[0]) is not None and strip(v.args[0]).kind == 'bin':
+            return strip(v.args[0])
+        return v
+
+    def is_lowest(v):
+        v = unc(v)
+        return v is not None and v.kind == 'call' and v.callee_name() == 'trailing_zeros' and prog.classify(v) == 'std' and len(v.args) == 1 and is_word(v.args[0])
+
+    def op_of(v):
+        return v.args[0].replace('WithOverflow', '').replace('Unchecked', '') if v is not None and v.kind == 'bin' else None
+
+    def one_at_lowest(v):
+        v = unc(v)
+        return op_of(v) == 'Shl' and unc(v.args[1]) is not None and unc(v.args[1]).kind == 'const' and unc(v.args[1]).args[0] == 1 and is_lowest(v.args[2])
+
+    def removes_lowest(v):
+        v = unc(v)
+        o = op_of(v)
+        if o is None:
+            return False
+        x, y = unc(v.args[1]), unc(v.args[2])
+        for p, q in ((x, y), (y, x)):
+            if o == 'BitAnd' and is_word(p):
+                # w & (w - 1)
+                if op_of(q) == 'Sub' and is_word(q.args[1]) and unc(q.args[2]).kind == 'const' and unc(q.args[2]).args[0] == 1:
+                    return True
+                if q is not None and q.kind == 'call' and q.callee_name() == 'wrapping_sub' and len(q.args) == 2 and is_word(q.args[0]) and unc(q.args[1]).kind == 'const' and unc(q.args[1]).args[0] == 1:
+                    return True
+                # w & !(1 << tz)
+                if q is not None and q.kind == 'un' and q.args[0] == 'Not' and one_at_lowest(q.args[1]):
+                    return True
+            if o == 'BitXor' and is_word(p) and one_at_lowest(q):
+                return True
+        if o == 'Sub' and is_word(x) and one_at_lowest(y):
+            return True
+        return False
+    sts = [st for st in b.stores if strip(st.root).kind == 'param' and tuple(p_ for p_ in st.path if p_ != '*') == (fld,)]
+    if len(sts) != 1:
+        problems.append('the remaining bits are written %d times in one step' % len(sts))
+    elif not removes_lowest(sts[0].value):
+        problems.append('the step does not take exactly the lowest set bit off the remaining bits (%s)' % show(sts[0].value, 4))
+    # results
+    rets = []
+    for rb in b.cfg.returns:
+        rv = strip(b.ret_val[rb])
+        if rv.kind == 'phi':
+            rets += [(strip(a), p_) for a, p_ in zip(rv.args, rv.extra['preds'])]
+        else:
+            rets.append((rv, rb))
+    nones = [(r, p_) for r, p_ in rets if r.kind == 'agg' and (r.extra.get('variant') or {}).get('name') == 'None']
+    somes = [(r, p_) for r, p_ in rets if r.kind == 'agg' and (r.extra.get('variant') or {}).get('name') == 'Some']
+    if len(nones) + len(somes) != len(rets) or not nones or not somes:
+        problems.append('undecided: the results are not plain Some(position) / None')
+    for r, p_ in somes:
+        if not is_lowest(r.args[0]):
+            problems.append('the place answered is %s, not the position of the lowest remaining bit' % show(r.args[0], 3))
+        if sts and not any(b.cfg.dominates(st.point[0], p_) or st.point[0] == p_ for st in sts):
+            problems.append('a place is answered without being taken off the remaining bits')
+    # None exactly when nothing is left: the test that separates the two answers
+    def emptiness(d):
+        d = unc(d)
+        if op_of(d) in ('Eq', 'Ne'):
+            x, y = unc(d.args[1]), unc(d.args[2])
+            for p, q in ((x, y), (y, x)):
+                if q is not None and q.kind == 'const':
+                    if is_word(p) and q.args[0] == 0:
+                        return op_of(d) == 'Eq'
+                    if is_lowest(p) and q.args[0] == 64:
+                        return op_of(d) == 'Eq'
+        return None
+    decided = False
+    for sblk, d in b.switch_discr.items():
+        pol = emptiness(d)
+        t = b.mir['blocks'][sblk]['term']
+        if pol is None or t.get('k') != 'switch':
+            if t.get('k') == 'switch' and len([x for x in b.cfg.succ[sblk] if x in b.cfg.can_return]) >= 2:
+                problems.append('the answer depends on %s, not only on whether a bit is left' % show(d, 3))
+            continue
+        for succ in set(b.cfg.succ[sblk]):
+            tr = edge_truth(t, succ)
+            if tr is None:
+                continue
+            empty_side = (tr == pol)
+            for r, p_ in nones:
+                if (b.cfg.dominates(succ, p_) and b.cfg.pred[succ] == [sblk]) or (succ == p_ and False):
+                    if not empty_side:
+                        problems.append('None is answered while bits are left')
+                    decided = True
+            for r, p_ in somes:
+                if b.cfg.dominates(succ, p_) and b.cfg.pred[succ] == [sblk] and empty_side:
+                    problems.append('a place is answered when no bit is left')
+    if not decided and not problems:
+        problems.append('undecided: no test of the remaining bits against zero in front of None')
+    problems = list(dict.fromkeys(problems))
+    ctx.add(RULE, f, 'bit-iterator', 'violation' if problems else 'ok', '; '.join(problems[:3]) if problems else
+            'None exactly when no bit is left; otherwise the position of the lowest set bit, and exactly that bit is taken off', PROPS, f.line)
